@@ -1,8 +1,10 @@
 (* C12 -- Stop/continue pauses tests and all clocks under every signal interleaving.
    Statements only. The pause table is regenerated from executor.rs / unix.rs on every run
    (gen/GenPauseTable.v); Proofs/PauseCert.v re-establishes the certificate for it. *)
-From NextestModel Require Import Base.Str Model.Clocks Model.UnitTimers Model.AbsTimers
-  Proofs.Timers Proofs.UnitProps Proofs.DelayProps Proofs.PauseCert Proofs.StopContinue gen.GenPauseTable.
+From NextestModel Require Import Base.Str Model.Clocks Model.UnitTimers Model.AbsTimers Model.UnitMonitor
+  Proofs.Timers Proofs.UnitProps Proofs.DelayProps Proofs.PauseCert Proofs.StopContinue
+  Proofs.UnitHistory Proofs.UnitErase Proofs.DispatcherEnv gen.GenPauseTable.
+From NextestModel Require Model.Dispatcher.
 From Coq Require Import MSets.MSetPositive.
 Open Scope N_scope.
 
@@ -68,8 +70,9 @@ Theorem C12_snapshot_while_paused_is_constant :
 Proof. exact sw_snapshot_paused_const. Qed.
 Print Assumptions C12_snapshot_while_paused_is_constant.
 
-(* Information requests: exactly one response, tagged with the loop the unit is in, and no state
-   change at all. *)
+(* Information requests: one response, tagged with the loop the unit is in (none in the synchronous
+   wait after a zero-grace kill and after the end, where requests are not read), and no state change
+   at all. *)
 Theorem C12_info_once :
   forall tbl cfg s,
   ucore tbl cfg s (AReq RGetInfo) =
@@ -131,6 +134,141 @@ Theorem C12_stop_continue_identity_terminating :
         [OSignal SigTstp; OAck; OSignal SigCont]).
 Proof. exact stop_continue_identity_terminating. Qed.
 Print Assumptions C12_stop_continue_identity_terminating.
+
+(* ================================================================ over whole histories
+   As in Properties/C09.v: [mrun true pause_table cfg (minit cfg) es = MOk m] holds exactly for the
+   histories [es] the environment can produce -- Stop / Continue alternate, shutdown requests come
+   Once then Twice, and nextest stops itself after the Stop: inside a stopped window only time
+   passes until the resumption, at which requests sent meanwhile, the child's exit etc. may be
+   handled (in any order) with no time passing before the Continue. *)
+
+(* Every environment-valid history of any length runs without internal failure (the monitored run
+   exists); this is [C12_no_internal_failure] under the richer environment. *)
+Theorem C12_env_valid_history_runs :
+  forall cfg es, cfg_valid cfg -> senv_trace senv0 es = true ->
+  exists m, mrun true pause_table cfg (minit cfg) es = MOk m.
+Proof. intros cfg es Hv Ht. exact (env_valid_runs pause_table pause_reach cfg es pause_cert Hv Ht). Qed.
+Print Assumptions C12_env_valid_history_runs.
+
+(* Time spent stopped is excluded from the reported duration: [time_taken] lies between the unpaused
+   time spent in the running / terminating loops ([m_rt]) and the whole unpaused time ([m_upt]);
+   the difference [m_upt - m_rt] is the unpaused time spent draining leaked handles (<= the leak
+   timeout). The upper bound excludes the known class F12 ([m_bad]: a Stop delivered while the
+   unit is in a loop that ignores job control); the lower bound is unconditional. *)
+Theorem C12_time_excluded :
+  forall cfg es m, cfg_valid cfg -> mrun true pause_table cfg (minit cfg) es = MOk m ->
+  m_rt m <= time_taken (m_u m) /\ m_rt m <= m_upt m /\
+  (m_bad m = false -> time_taken (m_u m) <= m_upt m).
+Proof.
+  intros cfg es m Hv Hr. exact (time_excluded pause_table pause_reach pause_cert cfg Hv es m Hr).
+Qed.
+Print Assumptions C12_time_excluded.
+
+(* inside the class the upper bound fails (finding F12): a stop during the leak drain is counted *)
+Example C12_time_excluded_refuted_in_known_class_F12 :
+  let cfg := {| period := 50; terminate_after := None; grace := 7; leak_timeout := 30 |} in
+  let es := [Tick 3; ChildExit true; Req RStop; Tick 20; Req RContinue; FdsDone] in
+  exists m, mrun true pause_table cfg (minit cfg) es = MOk m /\ m_bad m = true /\
+            time_taken (m_u m) = 23 /\ m_upt m = 3.
+Proof. eexists. split; [vm_compute; reflexivity|]. repeat split. Qed.
+
+(* ... and the slow-timeout interval and the grace period only advance on unpaused time: while a
+   unit is being terminated its grace sleep still has at least (grace - unpaused time since the
+   termination began) to go; while it is running (no shutdown request yet) the time the interval
+   sleep has counted is covered by the unpaused running time. *)
+Theorem C12_clocks_advance_on_unpaused_time :
+  forall cfg es m, cfg_valid cfg -> mrun true pause_table cfg (minit cfg) es = MOk m ->
+  (is_terminating (ph (m_u m)) = true -> grace cfg <= rem (k_gsl (ck (m_u m))) + m_gun m) /\
+  (no_shutdown_yet (m_x m) = true -> ph (m_u m) = PRunning -> timed_out (m_u m) = false ->
+     hits (m_u m) * period cfg + (period cfg - rem_isl (m_u m)) <= m_rt m).
+Proof.
+  intros cfg es m Hv Hr.
+  exact (clocks_advance_on_unpaused_time pause_table pause_reach pause_cert cfg Hv es m Hr).
+Qed.
+Print Assumptions C12_clocks_advance_on_unpaused_time.
+
+(* The audit's counterexample to "stopped time is excluded from the grace period" is exactly a
+   history the self-stop premise excludes (see also C09_kill_not_before_grace_needs_the_self_stop_premise):
+   accepted by the alternation-only premise, the whole grace period elapses while stopped. *)
+Example C12_grace_counts_stopped_time_without_the_self_stop_premise :
+  let cfg := {| period := 50; terminate_after := None; grace := 7; leak_timeout := 1 |} in
+  let es := [Tick 1; Req RStop; Req (RShutdown (Once SInt)); Tick 7; FireGrace] in
+  env_trace t0 es = true /\ senv_trace senv0 es = false /\
+  exists s, urun pause_table cfg (uinit cfg) es =
+            Ok (s, [OSignal SigTstp; OAck; OSignal SigInt; OSignal SigKill]).
+Proof. split; [reflexivity|]. split; [reflexivity|]. eexists. vm_compute. reflexivity. Qed.
+
+(* "... and the run proceeds to the results it would otherwise have produced", for arbitrary
+   histories: erase every pure stop / continue block (Stop, any number of Ticks, Continue) that
+   begins before the first shutdown request ([erase_blocks]); outside the class F12 the erased
+   history gives the same outputs minus the job-control signals and acknowledgements, and the same
+   final state -- up to the remaining time of the slow-timeout interval sleep once the attempt has
+   been terminated for a timeout (it is never read again) -- hence the same phase, result, slow
+   mark and reported time. Any number of blocks, in the running loop and in terminate_child. *)
+Theorem C12_same_results_any_history :
+  forall cfg es m, cfg_valid cfg -> mrun true pause_table cfg (minit cfg) es = MOk m -> m_bad m = false ->
+  exists o o' sf',
+    urun pause_table cfg (uinit cfg) es = Ok (m_u m, o) /\
+    urun pause_table cfg (uinit cfg) (erase_blocks es) = Ok (sf', o') /\
+    strip_jc o = strip_jc o' /\ req (m_u m) sf' /\
+    ph sf' = ph (m_u m) /\ uresult sf' = uresult (m_u m) /\ slow sf' = slow (m_u m) /\
+    time_taken sf' = time_taken (m_u m).
+Proof.
+  intros cfg es m Hv Hr Hb.
+  exact (same_results_erased pause_table pause_reach pause_cert pause_block_cert cfg Hv es m Hr Hb).
+Qed.
+Print Assumptions C12_same_results_any_history.
+
+(* non-vacuity: three blocks (running loop, running loop, terminate_child on the timeout path)
+   disappear; what remains is the history without any pause *)
+Example C12_same_results_nonvacuous :
+  let es := [Tick 3; Req RStop; Tick 60; Req RContinue; Tick 2; FireInterval; Tick 1; Req RStop; Tick 40;
+             Req RContinue; Tick 4; FireInterval; Tick 3; Req RStop; Tick 20; Req RContinue;
+             Tick 4; FireGrace; ChildExit false; FdsDone] in
+  senv_trace senv0 es = true /\
+  erase_blocks es = [Tick 3; Tick 2; FireInterval; Tick 1; Tick 4; FireInterval; Tick 3;
+                     Tick 4; FireGrace; ChildExit false; FdsDone].
+Proof. split; reflexivity. Qed.
+
+(* Stops that land while the unit is being terminated for a *shutdown signal* are outside the
+   erasure theorem, and for a reason: terminate_child does not own the slow-timeout interval sleep,
+   so it keeps counting while the run is stopped; when the loop is re-entered after the kill, the
+   interval may have expired although less than a period of running time has passed, and the
+   attempt is marked slow. Finding F17 (known_findings.json), reproduced end to end (3 of 3 runs):
+   minor -- the unit is already dead -- but it is stopped time counted by the slow-timeout clock.
+   The class: a Stop delivered after a shutdown request; [C12_same_results_any_history] and
+   [C09_slow_iff] are the statements outside it. *)
+Example C12_same_results_refuted_for_a_stop_during_signal_termination_F17 :
+  let cfg := {| period := 50; terminate_after := None; grace := 7; leak_timeout := 1 |} in
+  let es := [Req (RShutdown (Once SInt)); Req RStop; Tick 100; Req RContinue; Tick 7; FireGrace;
+             FireInterval; ChildExit false; FdsDone] in
+  let es' := [Req (RShutdown (Once SInt)); Tick 7; FireGrace; FireInterval; ChildExit false; FdsDone] in
+  senv_trace senv0 es = true /\
+  (exists m, mrun true pause_table cfg (minit cfg) es = MOk m /\ m_bad m = false /\ slow (m_u m) = true /\ m_rt m = 7) /\
+  (exists m, mrun true pause_table cfg (minit cfg) es' = MOk m /\ slow (m_u m) = false).
+Proof.
+  split; [reflexivity|]. split; eexists; (split; [vm_compute; reflexivity|repeat split]).
+Qed.
+
+(* "... in the orders the dispatcher can produce": a theorem about the dispatcher model
+   (Model/Dispatcher.v), for every input history: the requests a unit finds in its channel from
+   the moment it is registered (its Started handshake accepted) obey [env_ok] -- Stop / Continue
+   alternate through the debounce on [d_paused], shutdown requests come Once then Twice. *)
+Theorem C12_dispatcher_requests_obey_env :
+  forall n mf dbg h1 t h2 d1,
+  Dispatcher.final_state (Dispatcher.Live (Dispatcher.init n mf dbg)) h1 = Dispatcher.Live d1 ->
+  Dispatcher.r_hs (snd (Dispatcher.dstep (Dispatcher.Live d1) (Dispatcher.Started t))) = Dispatcher.HAccepted ->
+  env_trace t0 (map Req (reqs_of t (Dispatcher.next_state (Dispatcher.Live d1) (Dispatcher.Started t)) h2)) = true.
+Proof. exact dispatcher_requests_obey_env_from_registration. Qed.
+Print Assumptions C12_dispatcher_requests_obey_env.
+
+Example C12_dispatcher_requests_nonvacuous :
+  reqs_of 7 (Dispatcher.Live (Dispatcher.init 3 None true))
+    [Dispatcher.Started 7; Dispatcher.SigStop; Dispatcher.SigStop; Dispatcher.SigCont; Dispatcher.SigCont;
+     Dispatcher.SigInfo Dispatcher.IkUsr1; Dispatcher.SigShutdown Dispatcher.Term;
+     Dispatcher.SigShutdown Dispatcher.SInterrupt]
+  = [RStop; RContinue; RGetInfo; RShutdown (Once STerm); RShutdown Twice].
+Proof. vm_compute. reflexivity. Qed.
 
 (* ---- witnesses *)
 (* F11, before the repair: a snapshot taken while paused grew with the clock *)
